@@ -23,8 +23,8 @@ STUBBED_NAMES_TEMPLATES = True
 EXPLANATION = "C14 kernel: is_authorized_path against the segment-prefix specification, as a direct z3 string query generated from the method's AST (free segment and package names) and by symbolic execution of the method itself."
 FUNCTIONS_ENCODED = ["dds._eval_ctx.EvalMainContext.is_authorized_path"]
 BOUNDS = {
-    "quick": {"z3": "path depth 1..7 x 1..8 accepted names, all names free strings (unbounded length)", "crosshair": "depth 1..6 x accepted depth 1..6 x fillers 0..40 x 3 relations over the alphabet {a, ab, b}"},
-    "thorough": {"z3": "path depth 1..7 x 1..44 accepted names, all names free strings (unbounded length)", "crosshair": "depth 1..6 x accepted depth 1..6 x fillers 0..40 x 3 relations over the alphabet {a, ab, b}"},
+    "quick": {"z3": "path depth 1..7 x 1..8 accepted names, all names free strings (unbounded length)", "crosshair": "depth 1..6 x accepted depth 1..6 x fillers 0..40 x 4 relations (true prefix / string-prefix-confusable / unrelated / nested accepted pair) over the alphabet {a, ab, b}"},
+    "thorough": {"z3": "path depth 1..7 x 1..44 accepted names, all names free strings (unbounded length)", "crosshair": "depth 1..6 x accepted depth 1..6 x fillers 0..40 x 4 relations (true prefix / string-prefix-confusable / unrelated / nested accepted pair) over the alphabet {a, ab, b}"},
 }
 OUTSIDE = ["accepted package names that are empty strings (not a realistic configuration; the current loop matches the empty prefix against them)", "segments containing '.' or '/'", "paths deeper than 7"]
 ASSUMPTIONS = ["validity predicate: accepted names are non-empty; path segments are non-empty and contain neither '.' nor '/'", "ch.* queries: depth / counts are realised by indexing, i.e. enumerated through the solver"]
@@ -128,8 +128,13 @@ def _case(d, a, n, r):
         last = base[-1]
         base = base[:-1] + [{"a": "ab", "ab": "a", "b": "ab"}[last]]
         acc = ".".join(base)
-    else:
+    elif r == 2:
         acc = ".".join(["zz"] + SEGS[1:a])
+    else:
+        # two accepted packages, one nested in the other, and a module of the outer one that sorts after the inner one
+        acc = ".".join(SEGS[:a])
+        accepted = [acc, acc + ".aa"] + ["pkg%d" % i for i in range(n)]
+        return parts, accepted
     accepted = [acc] + ["pkg%d" % i for i in range(n)]
     return parts, accepted
 
@@ -138,7 +143,7 @@ def kern(a: int, n: int, r: int) -> bool:
     """
     pre: 1 <= a <= 6
     pre: 0 <= n <= 40
-    pre: 0 <= r <= 2
+    pre: 0 <= r <= 3
     post: _
     """
     h.enter()
